@@ -102,7 +102,7 @@ def gens(*names):
     return [GEN[n] for n in names]
 
 PLAN = {
-    'C01': {'extra': ['threads_engine'],
+    'C01': {'extra': ['protocol_engine', 'threads_engine'],
             'mc': mcs('fub', 'fub_b1', 'fu', 'mb', 'mu', 'bu', 'ja', thorough=('fub_c3', 'fu4')) + [live('fub'), live('mu', NC=2)],
             'gen': gens('fub', 'fu', 'mb', 'mu', 'bu'),
             'random': suite(COLL_KINDS + MERGE_KINDS, 200, 2000, 20, 200, profiles=('budget',)) + suite(ADAPT_KINDS + JOIN_KINDS, 150, 1500, 10, 100)},
@@ -124,8 +124,8 @@ PLAN = {
             'gen': gens('ja', 'tja'),
             'random': suite(JOIN_KINDS, 600, 6000, 60, 600) + [rnd(k, 'small', 'panic', 200, 2000) for k in JOIN_KINDS] + [rnd(k, 'small', 'dpanic', 200, 2000) for k in JOIN_KINDS]},
     'C08': {'mc': mcs('fub', 'fu', 'mu'),
-            'gen': gens('fub', 'fu', 'mu', 'bu'),
-            'random': suite(COLL_KINDS + MERGE_KINDS, 250, 2500, 30, 300, profiles=('oscillate',)) + suite(['bu', 'bo', 'ja'], 100, 1000, 10, 100)},
+            'gen': gens('fub', 'fu', 'mu', 'bu', 'tja'),
+            'random': suite(COLL_KINDS + MERGE_KINDS, 250, 2500, 30, 300, profiles=('oscillate',)) + suite(ADAPT_KINDS + JOIN_KINDS, 100, 1000, 10, 100)},
     'C09': {'mc': mcs('bu', 'bo', 'tbu', 'tbo', 'fe'),
             'gen': gens('bu', 'bo', 'tbu', 'tbo', 'fe'),
             'random': suite(ADAPT_KINDS, 400, 4000, 40, 400)},
